@@ -985,6 +985,11 @@ def run(prog, rep, tier):
     from ..flow import check_undefined_attrs
     rep.rule('ATTR-defined', 'every self.X read names an attribute bound somewhere in the class family')
     check_undefined_attrs(prog, rep, ['tenpy/tools/hdf5_io.py'])
+    from ..flow import check_state_derived_agree
+    rep.rule('STATE-derived-agree', '__setstate__ derives attributes by the same expressions as '
+             '__init__ where both start from the same inputs')
+    check_state_derived_agree(prog, rep, ['tenpy/linalg/charges.py', 'tenpy/linalg/np_conserved.py',
+                                          'tenpy/tools/params.py'])
     return rep.finish(
         level='other',
         explanation='Writer/reader agreement for every class offering HDF5 export (%d classes '
